@@ -20,7 +20,7 @@ for sid in ids:
         if r.returncode:
             print(sid, "PATCH DOES NOT APPLY"); continue
         res = {}
-        for chk in [pid] + EXTRA.get(pid, []):
+        for chk in [pid] + ([] if os.environ.get("SM_OWN_ONLY") else EXTRA.get(pid, [])):
             env = dict(os.environ, VERIF_REPO_SRC=f"{wt}/src", VERIF_BUILD_DIR=f"/tmp/sm_build_{sid}", VERIF_JOBS=os.environ.get("SM_JOBS", "8"))
             p = subprocess.run([f"{ROOT}/check", chk, "--tier", "quick", "--no-evidence"], capture_output=True, text=True, env=env, cwd=ROOT)
             viol = [l for l in p.stdout.splitlines() if l.startswith("REFUTED")]
